@@ -73,6 +73,26 @@ PLAN = {
             {"run": "TestC05_Cache", "checks": 60000, "shards": 16, "timeout": 3000},
         ],
     },
+    "C06": {
+        "quick": [
+            {"run": "TestC06_Retain", "checks": 5000},
+            {"run": "TestC06_Analysis", "checks": 20000},
+        ],
+        "thorough": [
+            {"run": "TestC06_Retain", "checks": 200000, "shards": 12, "timeout": 3000},
+            {"run": "TestC06_Analysis", "checks": 1000000, "shards": 4, "timeout": 3000},
+        ],
+    },
+    "C07": {
+        "quick": [
+            {"run": "TestC07_Fallback", "checks": 6000},
+            {"run": "TestC07_Known"},
+        ],
+        "thorough": [
+            {"run": "TestC07_Fallback", "checks": 300000, "shards": 15, "timeout": 3000},
+            {"run": "TestC07_Known"},
+        ],
+    },
     "C12": {
         "quick": [
             {"run": "TestC12_Model", "checks": 4000},
